@@ -8,8 +8,9 @@ the complete received-tag alphabet (all single-bit flips, all truncations, one-b
 the tag of another message) and offered to verify()/hexverify().
 """
 import hashlib
+import json
 
-from ..common import Acc, chunks, exc_site, short, seeded, asc
+from ..common import Acc, chunks, exc_site, jsonable, short, seeded, asc
 from . import _c03_ref as R
 
 LEVEL = "exploration"
@@ -20,6 +21,34 @@ RULE = ("complete enumeration of length/parameter grids per algorithm (see 'grid
 BUDGET = {"quick": 200, "thorough": 1700}
 
 K = R.K
+
+
+class MinAcc(Acc):
+    """Acc that keeps, per violation key, the *smallest* failing case (by size of its JSON form, then
+    text) instead of the first one merged, so that the reported input does not depend on which worker
+    finishes first."""
+
+    @staticmethod
+    def _rank(rec):
+        r = rec.get("_rank")
+        if r is None:
+            r = rec["_rank"] = [len(json.dumps(rec["case"], sort_keys=True)), rec["what"]]
+        return r
+
+    def violation(self, key, what, case, script=None):
+        self.viol_count[key] = self.viol_count.get(key, 0) + 1
+        rec = {"key": key, "what": what, "case": jsonable(case), "script": script}
+        old = self.viol.get(key)
+        if old is None or self._rank(rec) < self._rank(old):
+            self.viol[key] = rec
+
+    def merge(self, o):
+        mine = dict(self.viol)
+        Acc.merge(self, o)
+        for k, v in o.viol.items():
+            if k in mine and self._rank(v) < self._rank(mine[k]):
+                self.viol[k] = v
+        return self
 
 # ---------------------------------------------------------------------------
 # value alphabet
@@ -133,6 +162,14 @@ HMAC_HASHES = ("MD2", "MD4", "MD5", "RIPEMD160", "SHA1", "SHA224", "SHA256", "SH
                "SHA(alias)", "RIPEMD(alias)")
 
 
+_SAMPLES = {}
+
+
+def _sample(part, what, exp, got):
+    if part not in _SAMPLES:
+        _SAMPLES[part] = {"part": part, "case": what, "reference": short(exp, 64), "library": short(got, 64)}
+
+
 def _raised(acc, fam, algo, e, what, case):
     acc.violation("C03/%s/%s/raises-%s@%s" % (fam, algo, type(e).__name__, exc_site(e)),
                   "%s raised %s: %s" % (what, type(e).__name__, e), case)
@@ -202,6 +239,8 @@ def check_hash(acc, algo, msg):
     except Exception as e:  # noqa
         return _raised(acc, "hash", algo, e, what, case)
     k = "C03/hash/%s/" % algo
+    if len(msg) > 60:
+        _sample("hash", what, exp, d1)
     if d1 != exp:
         return acc.violation(k + "value", "%s: new(data=m).digest() = %s, standard says %s"
                              % (what, d1.hex(), exp.hex()), case)
@@ -374,6 +413,8 @@ def check_kmac(acc, bits, key, custom, msg, mac_len, do_verify=False):
     except Exception as e:  # noqa
         return _raised(acc, "mac", algo, e, what, case)
     k = "C03/mac/%s/" % algo
+    if len(msg) > 1:
+        _sample("kmac", what, exp, d1)
     if d1 != exp:
         return acc.violation(k + "value", "%s: digest() = %s, SP 800-185 says %s"
                              % (what, short(d1), short(exp)), case)
@@ -584,6 +625,8 @@ def check_k12(acc, msg, custom, reads, feed):
         raise
     except Exception as e:  # noqa
         return _raised(acc, "xof", "K12", e, what, case)
+    if len(msg) > 8192:
+        _sample("k12", what, exp, x)
     if x != exp:
         s_len = len(cu) + len(K.length_encode(len(cu)))
         if len(msg) == 0 and feed[0] in ("data", "none") and s_len > 8192 \
@@ -636,6 +679,8 @@ def check_hmac(acc, hname, key, msg, do_verify=False):
     except Exception as e:  # noqa
         return _raised(acc, "mac", algo, e, what, case)
     k = "C03/mac/%s/" % algo
+    if len(key) > 64 and msg:
+        _sample("hmac", what, exp, d1)
     if d1 != exp:
         return acc.violation(k + "value", "%s: digest() = %s, RFC 2104 says %s" % (what, d1.hex(), exp.hex()), case)
     if d2 != exp:
@@ -720,6 +765,8 @@ def check_cmac(acc, cname, key, msg, mac_len, cut=None, do_verify=False):
     except Exception as e:  # noqa
         return _raised(acc, "mac", algo, e, what, case)
     k = "C03/mac/%s/" % algo
+    if len(msg) > bs:
+        _sample("cmac", what, exp, d1)
     if d1 != exp:
         return acc.violation(k + ("value" if cut is None else "two-updates"),
                              "%s: digest() = %s, SP 800-38B says %s" % (what, d1.hex(), exp.hex()), case)
@@ -784,6 +831,8 @@ def check_poly(acc, cname, key, nonce, msg, do_verify=False):
     except Exception as e:  # noqa
         return _raised(acc, "mac", algo, e, what, case)
     k = "C03/mac/%s/" % algo
+    if len(msg) > 16:
+        _sample("poly1305", what, exp, d1)
     if d1 != exp:
         return acc.violation(k + "value", "%s: digest() = %s, standard says %s (r=%s s=%s)"
                              % (what, d1.hex(), exp.hex(), r.hex(), s.hex()), case)
@@ -888,3 +937,613 @@ def blake2_grid(acc, variant, dbytes, maxmsg):
         acc.seen("shapes", ("blake2-msglen", variant, ml))
     acc.count("evaluations", n)
     acc.count("blake2_grid_cases", n)
+
+
+# ===========================================================================
+# enumeration: case descriptors are small tuples ("part", ints...); workers derive the values
+# ===========================================================================
+def _dedupe(xs):
+    out = []
+    for x in xs:
+        if x not in out:
+            out.append(x)
+    return out
+
+
+def _rate(bits):
+    return R.rate_of(bits)
+
+
+# ---- hash -----------------------------------------------------------------
+def d_hash(acc, algo, n, kind):
+    check_hash(acc, algo, val(kind, n, "hash/" + algo))
+
+
+def d_hashbig(acc, algo, total):
+    check_hash_stream(acc, algo, total)
+
+
+STREAM_ALGOS = ("MD5", "RIPEMD160", "SHA1", "SHA224", "SHA256", "SHA384", "SHA512", "SHA512_224", "SHA512_256")
+
+
+def gen_hash(q):
+    groups = []
+    for algo, (f, B, D, hl) in R.HASH_REF.items():
+        slow = hl is None
+        if "alias" in algo:
+            lens, kinds = [0, 1, 55, 56, 63, 64, 65, 119, 120, 128, 129], (2, 3)
+        elif algo.startswith(("SHA3", "keccak")):
+            lens, kinds = range(0, (2 if q else 4) * B + 2), ((2, 3) if slow and q else (0, 1, 2, 3))
+        else:
+            lens = range(0, max((3 if q else 8) * B + 1, 193 if not (q and slow) else 0) + 1)
+            kinds = (2, 3) if slow and q else (0, 1, 2, 3)
+        cases = [("hash", algo, n, k) for n in lens for k in kinds]
+        per = 700 if slow else 40
+        for c in chunks(cases, 8):
+            groups.append((per * len(c), c))
+    total = (1 << 24) + 1 if q else (1 << 29) + 1
+    for algo in STREAM_ALGOS:
+        groups.append((total // 60, [("hashbig", algo, total)]))
+    if not q:
+        # BLAKE2s keeps a 32-bit low offset counter: cross 2^32 bytes once
+        groups.append(((1 << 32) // 40, [("hashbig", "BLAKE2s", (1 << 32) + 65)]))
+    return groups
+
+
+# ---- SHAKE ------------------------------------------------------------------
+def d_shake(acc, bits, n, kind, reads):
+    check_shake(acc, bits, val(kind, n, "shake"), reads)
+
+
+def gen_shake(q):
+    cases = []
+    for bits in (128, 256):
+        r = _rate(bits)
+        for n in range(0, (2 if q else 4) * r + 2):
+            for k in ((2, 3) if q else (0, 1, 2, 3)):
+                cases.append(("shake", bits, n, k, (32,)))
+        for outlen in range(0, (2 if q else 3) * r + 2):
+            for n in (0, r - 1, r + 1):
+                cases.append(("shake", bits, n, 2, _split(outlen)))
+        L = 2 * r + 1
+        for a in range(0, L + 1):
+            cases.append(("shake", bits, 3, 3, (a, L - a)))
+        cases.append(("shake", bits, 17, 3, (10 * r + 7,)))
+        cases.append(("shake", bits, 17, 3, (1, r - 1, r, r + 1, 5)))
+    return [(30 * len(c), c) for c in chunks(cases, 16)]
+
+
+# ---- cSHAKE -----------------------------------------------------------------
+def d_cshake(acc, bits, n, kind, outlen, clen, flen):
+    custom = None if clen is None else val(3, clen, "cshake-custom")
+    fn = None if flen is None else val(2, flen, "fn")
+    if fn is not None and custom is None:
+        custom = b""
+    check_cshake(acc, bits, val(kind, n, "cshake-msg"), outlen, custom, fn)
+
+
+def custom_lengths(bits):
+    r = _rate(bits)
+    return _dedupe([None, 0, 1, 31, 32, 33, 254, 255, 256, 257, r - 8, r - 7, r - 6, 2 * r - 8, 2 * r - 7,
+                    2 * r - 6, 8191, 8192, 8193, 65536])
+
+
+def gen_cshake(q):
+    groups = []
+    for bits in (128, 256):
+        r = _rate(bits)
+        full = list(range(0, 2 * r + 2))
+        few = [0, 1, r - 1, r, r + 1, 2 * r + 1]
+        for clen in custom_lengths(bits):
+            if q:
+                cases = [("cshake", bits, n, 3, 32, clen, None) for n in full]
+                cases += [("cshake", bits, n, 2, 32, clen, None) for n in few]
+            else:
+                cases = [("cshake", bits, n, k, 32, clen, None) for n in full for k in (2, 3)]
+            if clen == 1:
+                cases += [("cshake", bits, 3, 3, o, clen, None) for o in range(0, 2 * r + 2)]
+            groups.append((900 * len(cases) + 2 * (clen or 0), cases))
+        for flen in (0, 1, 4, 9, 31, 32, 33, 255, 256):
+            for clen in (0, 1, 32):
+                cases = [("cshake", bits, n, 3, 32, clen, flen) for n in (0, r + 1)]
+                groups.append((900 * len(cases), cases))
+    return groups
+
+
+# ---- KMAC -------------------------------------------------------------------
+def d_kmac(acc, bits, klen, clen, n, mac_len, verify):
+    custom = None if clen is None else val(3, clen, "kmac-custom")
+    check_kmac(acc, bits, val(3, klen, "kmac-key"), custom, val(3, n, "kmac-msg"), mac_len, verify)
+
+
+def gen_kmac(q):
+    groups = []
+    for bits in (128, 256):
+        r = _rate(bits)
+        mk = KMAC_MINKEY[bits]
+        KL = _dedupe([mk - 1, mk, mk + 1, r - 6, r - 5, r - 4, r - 1, r, r + 1, 2 * r])
+        ML = [None, 7, 8, 9, 31, 32, 64, r - 1, r, r + 1]
+        NL = [0, 1, r - 1, r, r + 1]
+        CL = [None, 0, 1, 31, 32, 33, 254, 255, 256, 257, 65536]
+        for clen in CL:
+            for klen in KL:
+                cases = [("kmac", bits, klen, clen, n, m, False) for n in NL for m in ML]
+                groups.append((1000 * len(cases) + 3 * (clen or 0), cases))
+        cases = [("kmac", bits, mk + 1, 1, n, 32, False) for n in range(0, 2 * r + 2)]
+        groups.append((1000 * len(cases), cases))
+        for klen in (mk, r + 1):
+            cases = [("kmac", bits, klen, 0, n, m, True) for m in (8, 32, r + 1) for n in (0, r + 1)]
+            groups.append((60000 * len(cases), cases))
+    return groups
+
+
+# ---- TupleHash ----------------------------------------------------------------
+def d_tuplehash(acc, bits, lens, clen, dbytes, use_bits):
+    custom = None if clen is None else val(3, clen, "th-custom")
+    items = [val(3, l, "th-item%d" % i) for i, l in enumerate(lens)]
+    check_tuplehash(acc, bits, items, custom, dbytes, use_bits)
+
+
+def gen_tuplehash(q):
+    groups = []
+    for bits in (128, 256):
+        r = _rate(bits)
+        L1 = [0, 1, 2, 31, 32, 33, r - 4, r - 3, r - 2, r - 1, r, r + 1]
+        L2 = [0, 1, 32, r - 3, r - 2, r]
+        L3 = [0, 1, 32]
+        tuples = [()] + [(a,) for a in L1] + [(a, b) for a in L2 for b in L2] \
+            + [(a, b, c) for a in L3 for b in L3 for c in L3]
+        CL = [None, 0, 1, 255, 256, 257]
+        DL = [None, 8, 9, 32, 64, r - 1, r + 1]
+        for clen in CL:
+            cases = [("tuplehash", bits, t, clen, d, False) for t in tuples for d in DL]
+            cases += [("tuplehash", bits, t, clen, d, True) for t in tuples[:14] for d in (8, 64)]
+            cases.append(("tuplehash", bits, (1,), clen, 7, False))
+            for c in chunks(cases, 4):
+                groups.append((1100 * len(c), c))
+        cases = [("tuplehash", bits, t, 65536, 32, False) for t in ((), (1,), (r, 0))]
+        groups.append((1100 * len(cases) + 200000, cases))
+    return groups
+
+
+# ---- TurboSHAKE ---------------------------------------------------------------
+def d_turbo(acc, bits, n, kind, reads, domain):
+    check_turbo(acc, bits, val(kind, n, "turbo"), reads, domain)
+
+
+def gen_turbo(q):
+    cases = []
+    for bits in (128, 256):
+        r = _rate(bits)
+        for n in range(0, (2 if q else 4) * r + 2):
+            for dom in (None, 0x01, 0x7F):
+                for k in ((3,) if q else (2, 3)):
+                    cases.append(("turbo", bits, n, k, (32,), dom))
+        for dom in range(1, 0x80):
+            for n in (0, 1, r - 2, r - 1, r, r + 1):
+                cases.append(("turbo", bits, n, 3, (32,), dom))
+        for dom in (0, 0x80, 0xFF):
+            cases.append(("turbo", bits, 0, 3, (32,), dom))
+        for outlen in range(0, 2 * r + 2):
+            for n in (0, r - 1):
+                cases.append(("turbo", bits, n, 2, _split(outlen), 0x1F))
+        L = 2 * r + 1
+        for a in range(0, L + 1, 1 if not q else 3):
+            cases.append(("turbo", bits, 3, 3, (a, L - a), 0x06))
+        cases.append(("turbo", bits, 17, 3, (1, r - 1, r, r + 1, 5), 0x0B))
+    return [(450 * len(c), c) for c in chunks(cases, 32)]
+
+
+# ---- KangarooTwelve -----------------------------------------------------------
+def d_k12(acc, mlen, mkind, clen, reads, feed):
+    custom = None if clen is None else val(3, clen, "k12-custom")
+    check_k12(acc, val(mkind, mlen, "k12-msg"), custom, reads, feed)
+
+
+def _k12_feeds(mlen):
+    if mlen == 0:
+        return [("data",), ("none",), ("update",)]
+    f = [("data",), ("update",)]
+    for c in _dedupe([1, 8191, 8192, 8193, mlen - 1]):
+        if 0 < c < mlen:
+            f.append(("cut", c))
+    if mlen > 8192:
+        f.append(("chunks", 8192))
+    if mlen > 1000:
+        f.append(("chunks", 1000))
+    return f
+
+
+def _k12_boundary_mlens(clen):
+    c = clen or 0
+    s = c + len(K.length_encode(c))
+    out = []
+    for tot in (8192, 16384):
+        for d in (-1, 0, 1):
+            if tot + d - s >= 0:
+                out.append(tot + d - s)
+    return out
+
+
+def gen_k12(q):
+    groups = []
+    if q:
+        ML = [0, 1, 2, 3, 8190, 8191, 8192, 8193, 8194, 16382, 16383, 16384, 16385, 16386, 24577]
+        CL = [None, 0, 1, 255, 256, 8191, 8193]
+        CL0 = CL + [8188, 8189, 8190, 8192, 16384]
+        kinds = (3,)
+    else:
+        ML = list(range(0, 4)) + list(range(8180, 8205)) + list(range(16376, 16393)) \
+            + list(range(24570, 24585)) + [32768, 32769, 40961, 65536, 65537]
+        CL = [None, 0, 1, 2, 255, 256, 257, 8189, 8190, 8191, 8192, 8193, 16384, 65536]
+        CL0 = CL + [8187, 8188, 24576]
+        kinds = (2, 3)
+    for clen in CL0:
+        mls = ML if clen in CL else []
+        mls = _dedupe(list(mls) + [0] + (_k12_boundary_mlens(clen) if clen in CL else []))
+        for mlen in mls:
+            for kind in (kinds if mlen else (3,)):
+                cases = [("k12", mlen, kind, clen, (32,), f) for f in _k12_feeds(mlen)]
+                cases.append(("k12", mlen, kind, clen, (7, 161, 168, 1), ("update",)))
+                cost = 3000 + (mlen + (clen or 0)) * 1 + 200 * len(cases)
+                groups.append((cost, cases))
+    if not q:
+        for clen in (None, 1):
+            for mlen in range(4, 341):
+                groups.append((1500, [("k12", mlen, 3, clen, (32,), ("data",)),
+                                      ("k12", mlen, 2, clen, (32,), ("update",))]))
+    for mlen, clen in ((0, None), (17, 5), (8193, 0), (8000, 300)):
+        cases = [("k12", mlen, 3, clen, (o,), ("data",)) for o in range(0, 338)]
+        cases += [("k12", mlen, 3, clen, (a, 337 - a), ("update",)) for a in range(0, 338, 1 if not q else 5)]
+        groups.append((5000 + 150 * len(cases), cases))
+    return groups
+
+
+# ---- HMAC ---------------------------------------------------------------------
+def d_hmac(acc, hname, klen, kkind, n, mkind, verify):
+    check_hmac(acc, hname, val(kkind, klen, "hmac-key"), val(mkind, n, "hmac-msg"), verify)
+
+
+def gen_hmac(q):
+    groups = []
+    for hname in HMAC_HASHES:
+        f, B, D, hl = R.HASH_REF[hname]
+        per = 2500 if hl is None else 120
+        NL = _dedupe([x for x in (0, 1, B - 17, B - 16, B - 9, B - 8, B - 1, B, B + 1, 2 * B + 1) if x >= 0])
+        if "alias" in hname:
+            cases = [("hmac", hname, kl, 3, n, 3, False) for kl in (0, B, B + 1) for n in (0, B + 1)]
+            groups.append((per * len(cases), cases))
+            continue
+        KL = list(range(0, B + 3)) + [2 * B] + ([] if q else [2 * B + 1, 3 * B])
+        cases = [("hmac", hname, kl, 3, n, 3, False) for kl in KL for n in NL]
+        edge = [B - 1, B, B + 1, 2 * B]
+        cases += [("hmac", hname, kl, kk, n, 2, False) for kl in (edge if q else KL) for kk in (0, 1, 2)
+                  for n in ((0, B + 1) if q else NL)]
+        if not q:
+            cases += [("hmac", hname, kl, 3, n, 3, False) for kl in (0, B - 1, B, B + 1, 2 * B)
+                      for n in range(0, 2 * B + 2) if n not in NL]
+        for c in chunks(cases, 4):
+            groups.append((per * len(c), c))
+        cases = [("hmac", hname, kl, 3, n, 3, True) for kl in (0, 1, B, B + 1) for n in (0, B + 1)]
+        for c in chunks(cases, 2):
+            groups.append(((per + 50 * 18 * D) * len(c), c))
+    cases = [("hmac", None, kl, 3, n, 3, False) for kl in (0, 1, 64, 65) for n in (0, 3)]
+    groups.append((100 * len(cases), cases))
+    return groups
+
+
+# ---- CMAC ---------------------------------------------------------------------
+CMAC_KEYS = {"AES": (16, 24, 32), "DES3": (16, 24), "DES": (8,), "Blowfish": (4, 5, 8, 16, 56),
+             "CAST": (5, 16), "ARC2": (5, 16, 128)}
+CMAC_REFCOST = {"AES": 60, "DES3": 110, "DES": 50, "Blowfish": 15, "CAST": 15, "ARC2": 15}   # us per block
+
+
+def d_cmac(acc, cname, klen, kkind, n, mkind, mac_len, cut, verify):
+    check_cmac(acc, cname, val(kkind, klen, "cmac-key"), val(mkind, n, "cmac-msg"), mac_len, cut, verify)
+
+
+def gen_cmac(q):
+    groups = []
+    for cname, kls in CMAC_KEYS.items():
+        bs = 16 if cname == "AES" else 8
+        if q and cname == "Blowfish":
+            kls = (4, 16, 56)
+        top = (3 if q else 8) * bs + 1
+        for klen in kls:
+            for kkind in ((0, 1, 2, 3) if cname == "AES" else (2, 3)):
+                cases = []
+                for n in range(0, top + 1):
+                    for ml in list(range(4, bs + 1)):
+                        cases.append(("cmac", cname, klen, kkind, n, 3, ml, None, False))
+                    for mk in (0, 1, 2, 3):
+                        cases.append(("cmac", cname, klen, kkind, n, mk, None, None, False))
+                    if n <= 3 * bs + 1 and kkind == 3:
+                        for cut in range(0, n + 1):
+                            cases.append(("cmac", cname, klen, kkind, n, 3, None, cut, False))
+                cases.append(("cmac", cname, klen, kkind, 0, 3, 3, None, False))
+                cases.append(("cmac", cname, klen, kkind, 0, 3, bs + 1, None, False))
+                per = 150 + CMAC_REFCOST[cname] * (top // bs // 2 + 2)
+                for c in chunks(cases, 2):
+                    groups.append((per * len(c) + 7000, c))
+            cases = [("cmac", cname, klen, 3, n, 3, ml, None, True) for n in (0, bs, bs + 1)
+                     for ml in (4, bs - 1, None)]
+            groups.append((25000 * len(cases), cases))
+    return groups
+
+
+# ---- Poly1305 -----------------------------------------------------------------
+def _poly_r(i):
+    return [bytes(16), b"\xff" * 16, R.R_CLAMP_MAX, asc(16, 1), val(3, 16, "poly-r")][i]
+
+
+def _poly_s(i):
+    return [bytes(16), b"\xff" * 16, val(3, 16, "poly-s")][i]
+
+
+def d_polyrs(acc, ri, si, n, mkind):
+    check_poly_rs(acc, _poly_r(ri), _poly_s(si), val(mkind, n, "poly-msg"))
+
+
+def poly_key_nonce(cname, variant):
+    if cname == "AES":
+        if variant == 0:
+            return val(3, 32, "poly-aes-key"), val(3, 16, "poly-aes-nonce")
+        if variant == 1:            # r all ones (clamped inside), s all ones: maximal carries
+            key = val(3, 16, "poly-aes-key") + b"\xff" * 16
+            return key, R.poly_aes_nonce_for_s(key, b"\xff" * 16)
+        if variant == 2:            # largest clamped r, s = 0
+            key = asc(16) + R.R_CLAMP_MAX
+            return key, R.poly_aes_nonce_for_s(key, bytes(16))
+        return bytes(32), bytes(16)
+    if variant == 0:
+        return val(3, 32, "poly-cc-key"), val(3, 12, "poly-cc-nonce")
+    if variant == 1:
+        return val(3, 32, "poly-cc-key"), val(3, 8, "poly-cc-nonce")
+    if variant == 2:
+        return bytes(32), bytes(12)
+    return b"\xff" * 32, b"\xff" * 8
+
+
+def d_poly(acc, cname, variant, n, mkind, verify):
+    key, nonce = poly_key_nonce(cname, variant)
+    check_poly(acc, cname, key, nonce, val(mkind, n, "poly-msg"), verify)
+
+
+def gen_poly(q):
+    top = 65 if q else 257
+    cases = [("polyrs", ri, si, n, mk) for ri in range(5) for si in range(3) for n in range(0, top + 1)
+             for mk in (0, 1, 2, 3)]
+    groups = [(60 * len(c), c) for c in chunks(cases, 8)]
+    for cname in ("AES", "ChaCha20"):
+        cases = [("poly", cname, v, n, mk, False) for v in range(4) for n in range(0, top + 1) for mk in (1, 3)]
+        groups += [(500 * len(c), c) for c in chunks(cases, 4)]
+        cases = [("poly", cname, v, n, 3, True) for v in (0, 1) for n in (0, 16, 17)]
+        groups.append((15000 * len(cases), cases))
+    return groups
+
+
+# ---- BLAKE2 ---------------------------------------------------------------------
+def d_b2grid(acc, variant, dbytes, maxmsg):
+    blake2_grid(acc, variant, dbytes, maxmsg)
+
+
+def d_b2full(acc, variant, dbytes, klen, n, use_bits, verify):
+    check_blake2(acc, variant, dbytes, val(3, klen, "b2key"), val(3, n, "b2full-msg"), use_bits, verify)
+
+
+def gen_blake2(q):
+    groups = []
+    for variant, maxd, block in (("b", 64, 128), ("s", 32, 64)):
+        maxmsg = (2 if q else 3) * block + 1
+        for d in range(1, maxd + 1):
+            groups.append(((maxd + 1) * (maxmsg + 1) * 13, [("b2grid", variant, d, maxmsg)]))
+        cases = [("b2full", variant, d, kl, n, ub, False) for d in range(1, maxd + 1) for kl in (0, 1, maxd)
+                 for n in (0, block, block + 1) for ub in (False, True)]
+        groups += [(50 * len(c), c) for c in chunks(cases, 2)]
+        for d in _dedupe([1, 16, 20, maxd]):
+            cases = [("b2full", variant, d, kl, n, False, True) for kl in (0, 1, maxd) for n in (0, block + 1)]
+            groups.append((60 * 18 * d * len(cases), cases))
+    return groups
+
+
+DISPATCH = {"hash": d_hash, "hashbig": d_hashbig, "shake": d_shake, "cshake": d_cshake, "kmac": d_kmac,
+            "tuplehash": d_tuplehash, "turbo": d_turbo, "k12": d_k12, "hmac": d_hmac, "cmac": d_cmac,
+            "polyrs": d_polyrs, "poly": d_poly, "b2grid": d_b2grid, "b2full": d_b2full}
+GENERATORS = (gen_hash, gen_shake, gen_cshake, gen_kmac, gen_tuplehash, gen_turbo, gen_k12, gen_hmac,
+              gen_cmac, gen_poly, gen_blake2)
+
+
+def pack(groups, nshards):
+    """Longest-processing-time-first packing of (cost, cases) groups into shards; a group is never split
+    (its cases share a primed reference state).  Deterministic."""
+    order = sorted(range(len(groups)), key=lambda i: (-groups[i][0], i))
+    loads = [0] * nshards
+    shards = [[] for _ in range(nshards)]
+    for i in order:
+        j = loads.index(min(loads))
+        loads[j] += groups[i][0]
+        shards[j].append(groups[i][1])
+    out = sorted(zip(loads, range(nshards), shards), key=lambda t: (-t[0], t[1]))
+    return [s for _, _, s in out if s]
+
+
+def worker(shard):
+    acc = MinAcc()
+    try:
+        install_seam()
+    except Exception as e:  # noqa
+        acc.error(str(e))
+        return acc
+    n0 = SEAM["n"]
+    for group in shard:
+        for case in group:
+            if case[0] == "selftest":
+                selftest_case(acc, case[1])
+            else:
+                DISPATCH[case[0]](acc, *case[1:])
+    for v in _SAMPLES.values():
+        acc.sample(v)
+    acc.count("seam_calls", SEAM["n"] - n0)
+    return acc
+
+
+def selftest_case(acc, i):
+    try:
+        if i < len(R.REF_MODULES):
+            if R.REF_MODULES[i].selftest() is False:
+                acc.error("reference selftest failed: %s" % R.REF_MODULES[i].__name__)
+        else:
+            R.selftest_glue()
+    except Exception as e:  # noqa
+        import traceback
+        acc.error("reference selftest failed (%s):\n%s" % (i, traceback.format_exc()))
+    acc.count("selftests")
+
+
+# ===========================================================================
+def run(ctx):
+    import time
+    q = ctx.quick
+    t0 = time.time()
+    ctx.acc = MinAcc()
+    groups = []
+    expected = {}
+    names = {"hash": "hash_cases", "hashbig": "hash_stream_cases", "shake": "shake_cases",
+             "cshake": "cshake_cases", "kmac": "kmac_cases", "tuplehash": "tuplehash_cases",
+             "turbo": "turbo_cases", "k12": "k12_cases", "hmac": "hmac_cases", "cmac": "cmac_cases",
+             "polyrs": "poly_rs_cases", "poly": "poly_cases", "b2full": "blake2_cases"}
+    for gen in GENERATORS:
+        gs = gen(q)
+        groups += gs
+        for _, cases in gs:
+            for c in cases:
+                if c[0] == "b2grid":
+                    expected["blake2_grid_cases"] = expected.get("blake2_grid_cases", 0) \
+                        + ((64 if c[1] == "b" else 32) + 1) * (c[3] + 1)
+                else:
+                    expected[names[c[0]]] = expected.get(names[c[0]], 0) + 1
+    nself = len(R.REF_MODULES) + 1
+    groups += [(3000000, [("selftest", i)]) for i in range(nself)]
+    shards = pack(groups, max(32, ctx.workers * 6))
+    ctx.coverage_extra["enumeration_build_s"] = round(time.time() - t0, 2)
+    ctx.pmap(worker, shards)
+    a = ctx.acc
+    n = a.n
+
+    # ---- vacuity guards --------------------------------------------------------
+    ctx.require(n.get("selftests", 0) == nself, "reference selftests did not all run")
+    for k, v in sorted(expected.items()):
+        ctx.require(n.get(k, 0) == v, "%s: executed %d of %d enumerated cases" % (k, n.get(k, 0), v))
+    ctx.require(n.get("verify_accept", 0) > 0 and n.get("verify_reject", 0) > 0,
+                "verify(): accept and reject must both be observed")
+    ctx.require(n.get("verify_reject", 0) > 50 * n.get("verify_accept", 1),
+                "verify(): far fewer rejected candidates than the tag alphabet must produce")
+    ctx.require(n.get("seam_calls", 0) >= (n.get("verify_accept", 0) + n.get("verify_reject", 0)) // 2,
+                "the get_random_bytes seam was not reached by every verify() call")
+    macs = set(s[2] for s in a.distinct.get("shapes", ()) if s[0] == "verify")
+    want = 15 + 6 + 2 + 2 + 2          # HMAC hashes (without the two alias modules), CMAC ciphers, KMAC, Poly1305, BLAKE2
+    ctx.require(len(macs) >= want, "verification alphabet ran on %d MACs, expected >= %d" % (len(macs), want))
+    for cls in ("authentic", "truncated", "extended-00", "extended-next", "other-message", "bitflip"):
+        ctx.require(any(s[0] == "verify" and s[3] == cls for s in a.distinct.get("shapes", ())),
+                    "candidate class %s never offered" % cls)
+    for part in ("hash", "shake", "cshake", "kmac", "tuplehash", "turbo", "k12", "hmac", "cmac", "poly"):
+        ctx.require(len(a.distinct.get("out/" + part, ())) >= 100,
+                    "part %s produced fewer than 100 distinct reference outputs" % part)
+    ctx.require(n.get("refused_by_policy", 0) > 0, "no documented parameter refusal was exercised")
+    shapes = a.distinct.get("shapes", ())
+    ctx.require(any(s[0] == "k12" and s[1] == 0 and (s[2] or 0) >= 8190 and s[4] == ("none",) for s in shapes),
+                "the KangarooTwelve long-customisation / no-update case was not executed")
+
+    per_part = {}
+    for s in shapes:
+        per_part[s[0]] = per_part.get(s[0], 0) + 1
+    ctx.coverage_extra.update({
+        "evaluations": n.get("evaluations", 0),
+        "distinct_nontrivial": len(shapes),
+        "exhaustive": not a.caps,
+        "distinct_shapes_per_part": per_part,
+        "cases_per_part": {k: n.get(k, 0) for k in sorted(set(expected) | {"blake2_cases"})},
+        "verify_outcomes": {k: n.get("verify_" + k, 0) for k in ("accept", "reject", "other")},
+        "policy_refusals_logged": n.get("refused_by_policy", 0),
+        "shards": len(shards),
+        "grids": {
+            "hash": "MD2 MD4 MD5 RIPEMD160 SHA1 SHA224/256/384/512 SHA512-224/256 SHA3-224..512 Keccak-224..512 "
+                    "BLAKE2b-512 BLAKE2s-256 (+aliases SHA, RIPEMD): every message length 0..%s, value alphabet "
+                    "zero/ones/ascending/seeded; one long message of %s bytes per Merkle-Damgard hash%s"
+                    % ("3*block+1 (sponges 0..2*rate+1)" if q else "8*block+1 (sponges 0..4*rate+1)",
+                       "2^24+1" if q else "2^29+1", "" if q else "; BLAKE2s 2^32+65 bytes"),
+            "shake": "SHAKE128/256: message 0..%d*rate+1, output 0..%d*rate+1, every split of a 2*rate+1 read"
+                     % ((2, 2) if q else (4, 3)),
+            "cshake": "cSHAKE128/256: customisation lengths %s x message lengths (0..2*rate+1 %s), output "
+                      "0..2*rate+1; function-name lengths 0,1,4,9,31,32,33,255,256 via _new"
+                      % (custom_lengths(128), "all, seeded value; 6 boundary lengths ascending value" if q
+                         else "all, 2 values"),
+            "kmac": "KMAC128/256: key lengths {min-1(refused),min,min+1,rate-6..rate-4,rate-1,rate,rate+1,2*rate} x "
+                    "mac_len {default,7(refused),8,9,31,32,64,rate-1,rate,rate+1} x message {0,1,rate-1,rate,rate+1} "
+                    "x customisation {omitted,0,1,31,32,33,254..257,65536} (full product); message sweep 0..2*rate+1",
+            "tuplehash": "TupleHash128/256: 76 tuples of 0..3 items with boundary lengths x customisation x "
+                         "digest_bytes/digest_bits",
+            "turboshake": "TurboSHAKE128/256: message 0..%d*rate+1 x domain {default,01,7f}; every domain 01..7f "
+                          "x 6 boundary lengths; output 0..2*rate+1; split reads" % (2 if q else 4),
+            "k12": "KangarooTwelve: message lengths around 0, 8192, 16384, 24576 (and |S| = 8191..8193, "
+                   "16383..16385 for each customisation) x customisation lengths x feeding patterns "
+                   "(data=, none, update, two pieces, 8192- and 1000-byte pieces); output 0..337",
+            "hmac": "HMAC over %d hash variants: key length 0..block+2 and 2*block%s x 10 boundary message lengths"
+                    % (len(HMAC_HASHES), "" if q else ", 2*block+1, 3*block; message sweep 0..2*block+1 for 5 keys"),
+            "cmac": "CMAC over AES/3DES/DES/Blowfish (reference ciphers) and CAST/RC2 (library ECB as primitive): "
+                    "message 0..%d*block+1 x mac_len 4..block; every two-piece split up to 3*block+1"
+                    % (3 if q else 8),
+            "poly1305": "Poly1305_MAC(r,s) seam: 5 r x 3 s limb patterns x message 0..%d x 4 values; "
+                        "Poly1305-AES / -ChaCha20 (8- and 12-byte nonce) 4 key variants x message 0..%d"
+                        % ((65, 65) if q else (257, 257)),
+            "blake2": "BLAKE2b: digest_bytes 1..64 x key length 0..64 x message 0..%d; BLAKE2s: 1..32 x 0..32 x "
+                      "0..%d; digest_bits entry point and update/hexdigest/obj.new on a sub-grid"
+                      % ((257, 129) if q else (385, 193)),
+            "verify": "every MAC: authentic, all truncations, +00/+ff/+next-byte extensions, other-message tag, "
+                      "every single-bit flip; verify() and hexverify()",
+        },
+    })
+    ctx.assume("data values: zero / ones / ascending / SHAKE256(VERIF_SEED) only (DESIGN 2.4); all shapes in 'grids'")
+    ctx.assume("message lengths beyond the stated grids are covered by one long message per Merkle-Damgard hash only; "
+               "bit counters above 2^32 (2^64 for SHA-384/512) are not reached")
+    ctx.assume("CAST-128 and RC2: CMAC is checked relative to the library's own single-block encryption")
+    ctx.assume("library-chosen random nonces of Poly1305.new(nonce=None) are not exercised")
+    ctx.assume("parameter refusals documented by the library (KMAC key < 16/32 bytes, mac_len/digest < 8, "
+               "CMAC mac_len outside 4..block, TurboSHAKE domain outside 01..7f) are logged, not judged")
+    ctx.assume("verify(): the random 16-byte secret comes from the get_random_bytes seam of each MAC module")
+    ctx.assume("cSHAKE function names other than '', 'KMAC', 'TupleHash' are reached through the private _new()")
+
+
+# ===========================================================================
+def replay(case, acc):
+    install_seam()
+    p = case["part"]
+    if p == "hash":
+        check_hash(acc, case["algo"], case["msg"])
+    elif p == "hash-stream":
+        check_hash_stream(acc, case["algo"], case["total"])
+    elif p == "shake":
+        check_shake(acc, case["bits"], case["msg"], tuple(case["reads"]))
+    elif p == "cshake":
+        check_cshake(acc, case["bits"], case["msg"], case["outlen"], case["custom"], case["fn"])
+    elif p == "kmac":
+        check_kmac(acc, case["bits"], case["key"], case["custom"], case["msg"], case["mac_len"], case["verify"])
+    elif p == "tuplehash":
+        check_tuplehash(acc, case["bits"], case["items"], case["custom"], case["dbytes"], case["use_bits"])
+    elif p == "turbo":
+        check_turbo(acc, case["bits"], case["msg"], tuple(case["reads"]), case["domain"])
+    elif p == "k12":
+        check_k12(acc, case["msg"], case["custom"], tuple(case["reads"]), case["feed"])
+    elif p == "hmac":
+        check_hmac(acc, case["hash"], case["key"], case["msg"], case["verify"])
+    elif p == "cmac":
+        check_cmac(acc, case["cipher"], case["key"], case["msg"], case["mac_len"], case["cut"], case["verify"])
+    elif p == "poly-rs":
+        check_poly_rs(acc, case["r"], case["s"], case["msg"])
+    elif p == "poly":
+        check_poly(acc, case["cipher"], case["key"], case["nonce"], case["msg"], case["verify"])
+    elif p == "blake2":
+        check_blake2(acc, case["variant"], case["dbytes"], case["key"], case["msg"], case["use_bits"],
+                     case["verify"])
+    else:
+        acc.error("unknown replay part %r" % p)
